@@ -353,7 +353,7 @@ def main(tier, replay=None):
         return 1 if hit else 0
     proof_ok = run.proof_stage()
     site_problem = sites_obligation(run)
-    bad = dtype_oracle(run, 6 if thorough else 2) + accuracy_oracle(run)
+    bad = dtype_oracle(run, 25 if thorough else 2) + accuracy_oracle(run)
     new = []
     listed = {f["id"] for f in common.load_known_findings(PID) if f.get("status") == "known"}
     seen = set()
